@@ -36,6 +36,11 @@ type context struct {
 	// the rel attribute has not already been parsed in the current element, or if the
 	// value of the rel attribute cannot be determined at parse time.
 	linkRel string
+	// enclosing is the name of an element that the parser is in, other than element, in whose
+	// content actions are not allowed, e.g. "object" in `<object><b>`. The escaper keeps no
+	// stack of open elements: only the outermost such element is remembered, until an end tag
+	// with its name is seen. It is "*" if that element has several possible names.
+	enclosing string
 }
 
 // eq returns whether Context c is equal to Context d.
@@ -54,6 +59,7 @@ func (c context) eq(d context) bool {
 // names of conditional branches and about the attribute value seen so far.
 func (c context) same(d context) bool {
 	return c.eq(d) &&
+		c.enclosing == d.enclosing &&
 		sameNames(c.element.names, d.element.names) &&
 		c.element.partial == d.element.partial &&
 		c.element.continued == d.element.continued &&
